@@ -25,6 +25,20 @@ sub-steps: `fin` (`notify_all_producers_finished`), `out` (a producer writes out
 Environment assumption built into `step`: producers write no output after the producers-finished
 notification (`out` is ignored once `prodDone`).
 
+Producers: `job.producerInstances` is a LIST (one entry per data reference: several references to one
+component give several entries).  Each entry is a `Prod`: the component it stands for (`id`; output belongs to
+the component, so entries of one component share it), whether the component is in the observer's stage
+(`same`: only those count for `Engine.canConsume`, "Different Stage: Always True") and whether it repeats
+(`rep`: `Job.producersHaveOutputSinceDate` treats a non-repeating producer as always having new output).
+`Cfg.pre` are the components whose output already exists when `run()` primes `lastLaunched`.
+`St.outs` = the components of the list that have produced output so far (`Ev.out c`: component `c` writes
+output; ignored when `c` is no producer of the observer).
+* `canConsume` (engine.py 1026-1080, `delay = 0`): EVERY same-stage entry of the list has output; the loop
+  leaves with `False` at the first same-stage producer without output.  `_consume` caches the first `True`.
+* `outSince` (`Job.producersHaveOutputSinceDate(lastLaunched)`): SOME entry does not repeat or has a file
+  newer than `lastLaunched`; since every event has its own instant, "some producer's newest file is newer than
+  t" is "the newest file of all is newer than t" (`lastOutput`).
+
 Two repairs are switchable so that the code before the repair stays available for `Witness` theorems:
 * `guardNone` (fixes/C13-launch-raises.diff): `did_i_execute and my_process is not None and
   my_process.returncode == 0`.  Without it a task generator that raises while the producers are finished
@@ -36,20 +50,40 @@ No Mathlib import (this file is linked into `drv-c13`).
 -/
 namespace St4sd.Repeat
 
+/-- one entry of `job.producerInstances` -/
+structure Prod where
+  id : Nat                 -- the component (its output directory)
+  same : Bool              -- producer.stageIndex == job.stageIndex
+  rep : Bool               -- producer.isRepeat
+  deriving DecidableEq, Repr
+
 structure Cfg where
   retries : Nat            -- workflowAttributes['repeatRetries'] (None is 3)
   dieAfter : Bool          -- variable kill-after-producers-done-delay present
-  noProd : Bool            -- job.producerInstances is empty
-  alwaysNew : Bool         -- some producer is not repeating: producersHaveOutputSinceDate is always True
-  preOutput : Bool         -- producer output already exists when run() primes lastLaunched
+  prods : List Prod        -- job.producerInstances, in order
+  pre : List Nat           -- components whose output already exists when run() primes lastLaunched
   guardNone : Bool
   killOnSuicidePoll : Bool
   deriving DecidableEq, Repr
 
+/-- `job.producerInstances` is empty -/
+def Cfg.noProd (cfg : Cfg) : Bool := cfg.prods.isEmpty
+/-- some producer is not repeating: `producersHaveOutputSinceDate` is always True -/
+def Cfg.alwaysNew (cfg : Cfg) : Bool := cfg.prods.any (fun p => !p.rep)
+/-- component `c` is a producer of the observer -/
+def Cfg.isProd (cfg : Cfg) (c : Nat) : Bool := cfg.prods.any (fun p => p.id == c)
+/-- producer output already exists when `run()` primes `lastLaunched` -/
+def Cfg.preOutput (cfg : Cfg) : Bool := cfg.pre.any cfg.isProd
+
+/-- `Engine.canConsume()` with `delay = 0`, given the components that have output: every producer of the
+observer's own stage has output (producers of other stages do not count) -/
+def canConsume (cfg : Cfg) (outs : List Nat) : Bool :=
+  cfg.prods.all (fun p => !p.same || outs.contains p.id)
+
 inductive Outcome | ok | fail | raised
   deriving DecidableEq, Repr
 
-inductive Ev | fin | out | kill | die | adv
+inductive Ev | fin | out (c : Nat) | kill | die | adv
   deriving DecidableEq, Repr
 
 inductive Op
@@ -74,7 +108,7 @@ inductive Pc
 structure Exec where
   launch : Nat
   pdws : Bool        -- producers_done_when_i_started
-  avail : Bool       -- at launch: no producers at all, or some producer output exists
+  avail : Bool       -- at launch: every same-stage producer has output (`canConsume` of that moment)
   deriving DecidableEq, Repr
 
 structure St where
@@ -93,6 +127,7 @@ structure St where
   aged : Bool
   hasOutput : Bool
   lastOutput : Nat
+  outs : List Nat          -- producer components that have output (newest first, repetitions possible)
   execLog : List Exec      -- newest first
   pc : Pc
   -- ghost
@@ -104,7 +139,8 @@ structure St where
 def init (cfg : Cfg) : St :=
   { clock := 1, prodDone := false, finTime := 0, suicide := false, armed := false, consume := false,
     retries := cfg.retries, cancel := false, kc := false, hasProc := false, procKilled := false,
-    lastLaunched := 0, aged := false, hasOutput := cfg.preOutput, lastOutput := 0, execLog := [],
+    lastLaunched := 0, aged := false, hasOutput := cfg.preOutput, lastOutput := 0,
+    outs := cfg.pre.filter cfg.isProd, execLog := [],
     pc := .idle, cause := none, pollsFin := 0, books := 0 }
 
 /-- `RepeatingEngine.isAlive()` = `exitReason() is None` (lastExecution is False: restarts not modelled) -/
@@ -124,7 +160,9 @@ def envStep (cfg : Cfg) (s : St) : Ev → St
   | .fin =>
     let a := cfg.dieAfter && alive s
     { s with prodDone := true, finTime := if s.prodDone then s.finTime else s.clock, armed := s.armed || a }
-  | .out => if s.prodDone then s else { s with hasOutput := true, lastOutput := s.clock }
+  | .out c =>
+    if s.prodDone || !cfg.isProd c then s
+    else { s with hasOutput := true, lastOutput := s.clock, outs := c :: s.outs }
   | .kill => doKill .external s
   | .die =>
     if s.armed then
@@ -166,10 +204,10 @@ def engStep (cfg : Cfg) (s : St) (o : Outcome) : St :=
       { s with pollsFin := s.pollsFin + b2n s.prodDone, pc := .checked isNew s.prodDone }
   | .checked isNew fc => { s with pc := .sampled isNew fc s.prodDone }
   | .sampled isNew fc pdws =>
-    let consume := s.consume || cfg.noProd || s.hasOutput
+    let consume := s.consume || canConsume cfg s.outs
     if consume && (isNew || cfg.noProd) then
       { s with consume := consume, lastLaunched := s.clock, aged := false,
-               execLog := ⟨s.clock, pdws, cfg.noProd || s.hasOutput⟩ :: s.execLog,
+               execLog := ⟨s.clock, pdws, canConsume cfg s.outs⟩ :: s.execLog,
                hasProc := s.hasProc || (o != .raised),
                procKilled := false,
                pc := .running isNew fc pdws o }
